@@ -35,6 +35,7 @@
 #include <thread>
 #include <tuple>
 #include <type_traits>
+#include <utility>
 #include <unistd.h>
 #include <unordered_set>
 #include <vector>
